@@ -15,6 +15,16 @@ pub mod refmodel_chrono;
 pub mod checks;
 mod c01_builtin;
 mod c02_derived;
+mod c05_total;
+#[cfg(any(kani, desert_verif_hooks))]
+mod c06_regions;
+mod c10_refs;
+mod c12_containers;
+mod c13_enums;
+mod c15_sources;
+mod c17_encode_errors;
+mod c18_isolation;
+mod c19_memory;
 mod c11_varint;
 #[cfg(kani)]
 mod probe;
